@@ -55,7 +55,7 @@ Section Loops.
     arr_cmp_loop V sc fuel d (lenN done) (lenN l) (lo + 4) (4 * lenN done) (4 * lenN l + sum_len done) buf
     = appended buf (goKf kf todo).
   Proof.
-    intros PL W Hsc. induction todo as [|x t IH]; intros done buf fuel E Hf; (destruct fuel as [|fuel]; [cbn [length] in Hf; lia|]); cbn [arr_cmp_loop].
+    intros PL W Hsc. induction todo as [|x t IH]; intros done buf fuel E Hf; (destruct fuel as [|fuel]; [cbn [length] in Hf; lia|]); cbn [arr_cmp_loop]; unfold CVA_JSTEP.
     - rewrite app_nil_r in E. subst done. rewrite N.ltb_irrefl. cbn [goKf appended bind]. rewrite app_nil_r. reflexivity.
     - assert (H1 : lenN l = lenN done + (1 + lenN t)) by (rewrite E, lenN_app, lenN_cons; reflexivity).
       replace (lenN done <? lenN l) with true by (symmetry; apply N.ltb_lt; lia).
@@ -110,7 +110,7 @@ Section LoopsObj.
                  (8 * lenN o + sum_keys o + sum_len (vals done)) buf
     = appended buf (goKOf d kf todo).
   Proof.
-    intros PL W Hsc. induction todo as [|[k x] t IH]; intros done buf E; cbn [kws map obj_cmp_loop].
+    intros PL W Hsc. induction todo as [|[k x] t IH]; intros done buf E; cbn [kws map obj_cmp_loop]; unfold CVO_JSTEP2.
     - cbn [goKOf appended bind]. rewrite app_nil_r. reflexivity.
     - fold (kws t). cbn [fst].
       assert (Hk : wf_size x = true /\ lenN k < 268435456).
@@ -151,7 +151,7 @@ Theorem scalar_cmp_entry V : forall x, wfb x = true -> forall fuel d lo buf, (de
 Proof.
   induction x as [|bx|sx|nx|l IH|o IH] using value_ind2; intros Wx fuel d lo buf Hf PL;
     (destruct fuel as [|f]; [cbn [depth] in Hf; lia|]);
-    pose proof (wfb_size _ Wx) as Sx; cbn [scalar_cmp_w]; rewrite (word_type _ Sx); cbn [tag_of normalise].
+    pose proof (wfb_size _ Wx) as Sx; cbn [scalar_cmp_w]; unfold CVC_ARR_SKIP, CVC_OBJ_SKIP; rewrite (word_type _ Sx); cbn [tag_of normalise].
   - change (NULL_TAG =? CONTAINER_TAG) with false. change (NULL_TAG =? STRING_TAG) with false. change (NULL_TAG =? NUMBER_TAG) with false.
     cbv iota. cbn [key_entry appended bind tag_of]. rewrite <- app_assoc. reflexivity.
   - destruct bx; cbn [tag_of];
@@ -179,7 +179,7 @@ Proof.
       replace (A ++ (be32 (arr_hdr l) ++ flat_map be32 (map word l) ++ flat_map payload l) ++ B)
         with ((A ++ be32 (arr_hdr l)) ++ [] ++ (flat_map be32 (map word l) ++ flat_map payload l ++ B)) by (cbn [app]; rewrite <- !app_assoc; reflexivity).
       apply from_ok_in. rewrite lenN_app, lenN_be32. reflexivity. }
-    rewrite FO. cbn [bind]. unfold array_cmp_w.
+    rewrite FO. cbn [bind]. unfold array_cmp_w, CVA_JOFF, CVA_VOFF.
     pose proof (arr_cmp_entry V f (fun x => key_entry (sat1 d) (normalise x)) l lo (sat1 d) PL W) as AL.
     specialize (AL ltac:(intros x Hx lo' buf' P1; rewrite Forall_forall in IH; apply (IH x Hx);
                          [rewrite Forall_forall in Hall; apply Hall; exact Hx|cbn [depth] in Hf; pose proof (depth_elem l x Hx); lia|exact P1])).
@@ -201,7 +201,7 @@ Proof.
       replace (A ++ (be32 (obj_hdr o) ++ flat_map be32 (kws o ++ vws o) ++ keys_bytes o ++ flat_map payload (vals o)) ++ B)
         with ((A ++ be32 (obj_hdr o)) ++ [] ++ (flat_map be32 (kws o ++ vws o) ++ keys_bytes o ++ flat_map payload (vals o) ++ B)) by (cbn [app]; rewrite <- !app_assoc; reflexivity).
       apply from_ok_in. rewrite lenN_app, lenN_be32. reflexivity. }
-    rewrite FO. cbn [bind]. unfold object_cmp_w.
+    rewrite FO. cbn [bind]. unfold object_cmp_w, CVO_JOFF, CVO_JSTEP1, CVO_KOFF, CVO_VOFF. rewrite ?N.add_0_r, ?N.add_0_l.
     assert (RK : rd_words (S (length V)) V 0 (lenN o) (lo + 4) = Some (kws o)).
     { rewrite EL, ELo. apply (rd_key_words A o B _ Ho). rewrite !app_length. pose proof (payload_obj_len o). lia. }
     rewrite RK. rewrite (sum_je_len_kws o Ho).
@@ -231,7 +231,7 @@ Proof.
       { pose proof (read_hdr_arr [] l [] Hn) as RH0. cbn [app] in RH0. rewrite app_nil_r in RH0. exact RH0. }
       rewrite RH. destruct (arr_hdr_facts l Hn) as (_ & T & L'). rewrite T, L'.
       change (ARRAY_CONTAINER_TAG =? SCALAR_CONTAINER_TAG) with false. rewrite N.eqb_refl.
-      cbn [scalar_cmp_w] in E. rewrite (word_type _ Sv) in E. cbn [tag_of] in E. change (CONTAINER_TAG =? CONTAINER_TAG) with true in E. cbv iota in E.
+      cbn [scalar_cmp_w] in E. unfold CVC_ARR_SKIP, CVC_OBJ_SKIP in E. rewrite (word_type _ Sv) in E. cbn [tag_of] in E. change (CONTAINER_TAG =? CONTAINER_TAG) with true in E. cbv iota in E.
       rewrite RH, T, L', N.eqb_refl in E. change (0 + 4) with 4 in E.
       rewrite <- E. destruct (from_ok (enc (VArr l)) 4); cbn [bind]; try reflexivity. rewrite <- app_assoc. reflexivity.
     + destruct (obj_ok_of_wf o Wv) as [Ho Hn].
@@ -239,7 +239,7 @@ Proof.
       { pose proof (read_hdr_obj [] o [] Hn) as RH0. cbn [app] in RH0. rewrite app_nil_r in RH0. exact RH0. }
       rewrite RH. destruct (obj_hdr_facts o Hn) as (_ & T & L'). rewrite T, L'.
       change (OBJECT_CONTAINER_TAG =? SCALAR_CONTAINER_TAG) with false. change (OBJECT_CONTAINER_TAG =? ARRAY_CONTAINER_TAG) with false. rewrite N.eqb_refl.
-      cbn [scalar_cmp_w] in E. rewrite (word_type _ Sv) in E. cbn [tag_of] in E. change (CONTAINER_TAG =? CONTAINER_TAG) with true in E. cbv iota in E.
+      cbn [scalar_cmp_w] in E. unfold CVC_ARR_SKIP, CVC_OBJ_SKIP in E. rewrite (word_type _ Sv) in E. cbn [tag_of] in E. change (CONTAINER_TAG =? CONTAINER_TAG) with true in E. cbv iota in E.
       rewrite RH, T, L' in E. change (OBJECT_CONTAINER_TAG =? ARRAY_CONTAINER_TAG) with false in E. rewrite N.eqb_refl in E. change (0 + 4) with 4 in E.
       rewrite <- E. destruct (from_ok (enc (VObj o)) 4); cbn [bind]; try reflexivity. rewrite <- app_assoc. reflexivity.
   - rewrite (scalar_hdr v Cv). change (hdr_type SCALAR_CONTAINER_TAG =? SCALAR_CONTAINER_TAG) with true. cbv iota.
